@@ -323,6 +323,31 @@ def run(ctx):
             ctx.violation("dec-%s:%s" % (kind.lower(), v), "decoding the text of the %s build in the %s build: %s %s" % (tv, v, kind, e[:300]),
                           dict(op="line", line=dl[k][:4000], variant=v))
     ctx.log("pass 2: %d cases x 2 builds %.1fs" % (len(dl), time.time() - t0))
+    # HIGH-RATIO texts: deflate reaches an expansion factor of 1026..1029 on megabytes of one repeated byte; the decoder's
+    # plausibility guard (header size vs. amount of compressed data, 5c6a588) must admit everything deflate can produce.
+    # The texts are made by the independent Python encoder (a few KB each), decoded by both builds, and judged on length
+    # and content (seed C06e narrowed the guard to a factor of 1024)
+    hr = []
+    for (n, byte, level) in ([(4 << 20, 0, 9), (4 << 20, 255, 6)] if ctx.quick else [(m << 20, b, l) for m in (3, 4, 6, 16) for b in (0, 255) for l in (-1, 4, 6, 9)]):
+        data = bytes([byte]) * n
+        text = cc.py_encode(data, level=level)
+        hr.append((n, byte, level, data, "dec 0 1 %x 3 0 %s" % (n, cc.hx(text))))          # owner, ONE element of n bytes
+    for v in ("z", "nz"):
+        outs, inc = cc.run_harness(ctx, exes[v], [h[4] for h in hr], timeout=170 if ctx.quick else 1500)
+        for (k, kind, e) in inc:
+            ctx.violation("dec-%s:%s" % (kind.lower(), v), "decoding a high-ratio text in the %s build: %s %s" % (v, kind, e[:300]), dict(op="line", line=hr[k][4][:4000], variant=v))
+        for k, (n, byte, level, data, line) in enumerate(hr):
+            o = outs[k]
+            ctx.count_case(("high-ratio", v, n, byte, level), nontrivial=True)
+            if o in (None, "CRASH", "TIMEOUT", "NOT-RUN"):
+                continue
+            exp = "ok %x 1 " % n
+            if not (o.startswith(exp) and cc.unhx(o[len(exp):]) == data):
+                ctx.violation("roundtrip:high-ratio:%s-reader" % v,
+                              "%d bytes of %#04x compressed by zlib at level %d (ratio %.0f): sc_io_decode in the %s build returns %s, expected the data" % (
+                                  n, byte, level, n / max(1, len(zlib.compress(data, level if level >= 0 else 6))), v, o[:40]),
+                              dict(op="line", line=line, variant=v, n=n, byte=byte, level=level))
+    ctx.log("high-ratio texts: %d cases x 2 builds %.1fs" % (len(hr), time.time() - t0))
     # the model decodes the small and the stored texts (its inflate is quadratic in the match distance: large Huffman streams are left to the two builds)
     msel = [k for k, (i, tv, kd) in enumerate(dmeta) if len(ecases[i]["data"]) <= 5000 or tv == "nz" or kd is None]
     mod2 = cc.run_model(ctx, "c06", [dl[k] for k in msel] + armor_lines + vtkcb_lines, timeout=900 if ctx.quick else 3000)
